@@ -21,7 +21,7 @@ LEVEL = 'other'
 TARGETS = ['valjean.cosette.run:run', 'valjean.cosette.run:make_cap_paths', 'valjean.cosette.run:RunTask.run_task',
            'valjean.cosette.run:RunTask.from_clis', 'valjean.path:sanitize_filename', 'valjean.path:ensure',
            'valjean.cosette.pythontask:PythonTask.do', 'valjean.cosette.code:CheckoutTask.__init__']
-BOUNDS = {'quick': {'commands': '<= 3 per task', 'exit statuses': 'arbitrary integers (symbolic)', 'start-up failure': 'OSError at any position',
+BOUNDS = {'quick': {'commands': '<= 3 per task', 'executions': 'each task twice under the same output root', 'exit statuses': 'arbitrary integers (symbolic)', 'start-up failure': 'OSError at any position',
                     'task names': 'arbitrary strings of any length (z3 string theory)'},
           'thorough': {'commands': '<= 4 per task', 'exit statuses': 'arbitrary integers (symbolic)',
                        'task names': 'arbitrary strings of any length (z3 string theory)'}}
@@ -52,15 +52,16 @@ def make_harness(n, via_task):
         codes = [ex.int(f'code{i}') for i in range(n)]
         oserr_at = ex.choice(n + 1, 'oserror-at') - 1        # -1: every executable can be started
         calls = []
+        run_tag = ['']
 
         def call_stub(cli, **kw):
             k = len(calls)
             calls.append(cli)
             if k == oserr_at:
                 raise FileNotFoundError(2, 'No such file or directory', cli[0])
-            kw['stdout'].write(f'OUT{k}\n')
+            kw['stdout'].write(f'{run_tag[0]}OUT{k}\n')
             kw['stdout'].flush()
-            kw['stderr'].write(f'ERR{k}\n')
+            kw['stderr'].write(f'{run_tag[0]}ERR{k}\n')
             kw['stderr'].flush()
             return codes[k]
         clis = [[f'cmd{i}', 'arg'] for i in range(n)]
@@ -116,6 +117,19 @@ def make_harness(n, via_task):
                 ex.check([ln for ln in err.splitlines() if ln.startswith('ERR')] == [f'ERR{k}' for k in expect],
                          'captured-stderr-intact-and-in-order')
                 ex.check(d['clis'] == clis, 'recorded-command-lines')
+                # the same task executed again under the same output root (a second `valjean run` in the same directory):
+                # the captured files hold the output of THIS execution only
+                del calls[:]
+                run_tag[0] = 'again-'
+                upd2, status2 = task.do(Env(), _Cfg(tmp))
+                d2 = upd2['mytask']
+                ex.check(status2 == status and d2['stdout'] == d['stdout'] and d2['stderr'] == d['stderr'],
+                         'second-execution:same-status-and-capture-files')
+                out2 = open(d2['stdout']).read()
+                err2 = open(d2['stderr']).read()
+                ex.check(out2 == ''.join(f'again-OUT{k}\n' for k in expect), 'second-execution:captured-stdout-is-that-of-this-execution')
+                ex.check([ln for ln in err2.splitlines() if 'ERR' in ln] == [f'again-ERR{k}' for k in expect],
+                         'second-execution:captured-stderr-is-that-of-this-execution')
         finally:
             runmod.call = saved
             shutil.rmtree(tmp, ignore_errors=True)
